@@ -162,4 +162,30 @@ theorem entitled_of_passed {w : World} {id : ConnIdent} {req : Req} {ts : Tunnel
       · simp [htg]
     rw [h1, h2, h3]; simp
 
+/-- No update un-revokes: it writes back the revocation flag it read, or sets it. -/
+theorem Update.apply_revoked (u : Update) (m : PortMapping) (h : m.IsRevoked = true) :
+    (u.apply m).IsRevoked = true := by
+  cases u <;> simp [Update.apply, h]
+
+theorem Update.apply_id (u : Update) (m : PortMapping) : (u.apply m).ID = m.ID := by
+  cases u <;> simp [Update.apply]
+
+theorem runSerial_revoked (us : List Update) (m : PortMapping) (h : m.IsRevoked = true) :
+    (runSerial us m).IsRevoked = true := by
+  induction us generalizing m with
+  | nil => simpa [runSerial] using h
+  | cons u us ih => simpa [runSerial, List.foldl] using ih (u.apply m) (u.apply_revoked m h)
+
+theorem runSerial_id (us : List Update) (m : PortMapping) : (runSerial us m).ID = m.ID := by
+  induction us generalizing m with
+  | nil => rfl
+  | cons u us ih => simpa [runSerial, List.foldl, Update.apply_id] using ih (u.apply m)
+
+theorem runSerial_append (a b : List Update) (m : PortMapping) :
+    runSerial (a ++ b) m = runSerial b (runSerial a m) := by
+  simp [runSerial, List.foldl_append]
+
+theorem revoked_unusable {now : Nat} {m : PortMapping} (h : m.IsRevoked = true) : mappingUsable now m = false := by
+  simp [mappingUsable, h]
+
 end Tunnox.C04
